@@ -1628,6 +1628,7 @@ class BADS:
 
         # The Acquisition Hedge policy is not yet supported (even in Matlab)
         index_acq = None
+        u_search = None
         if u_search_set.size > 0:
             # Batch evaluation of acquisition function on search set
             z, f_mu, fs = acq_fcn_lcb(u_search_set, self.function_logger.func_count, gp)
